@@ -74,11 +74,26 @@ impl AsyncRead for UdpStream {
         cx: &mut Context<'_>,
         buf: &mut ReadBuf<'_>,
     ) -> Poll<Result<(), std::io::Error>> {
-        match self.inner.poll_recv(cx, buf) {
-            Poll::Ready(Ok(_n)) => Poll::Ready(Ok(())),
-            Poll::Ready(Err(e)) => Poll::Ready(Err(e)),
-            Poll::Pending => Poll::Pending,
+        let this = self.get_mut();
+
+        // lets clear out our internal buffer first
+        if this.buffer.is_empty() {
+            // we need an internal buffer for *this receive call* to ensure that the internal
+            // udpsocket does not truncate anything. We cannot guarantee that the caller's buffer
+            // will have the space we require.
+            let mut rx_bytes = [0u8; crate::MAX_SIZE_PACKET];
+            let mut rx = ReadBuf::new(&mut rx_bytes);
+            match this.inner.poll_recv(cx, &mut rx) {
+                Poll::Ready(Ok(())) => this.buffer.extend_from_slice(rx.filled()),
+                Poll::Ready(Err(e)) => return Poll::Ready(Err(e)),
+                Poll::Pending => return Poll::Pending,
+            }
         }
+
+        let to_copy = buf.remaining().min(this.buffer.len());
+        let bytes = this.buffer.copy_to_bytes(to_copy);
+        buf.put_slice(&bytes);
+        Poll::Ready(Ok(()))
     }
 }
 
